@@ -20,7 +20,8 @@ META = dict(
     trusted_base=['Lean 4 kernel (+ leanchecker in thorough)', 'gen/cmd/c20facts (go/ast extraction)', 'harness/cmd/c20 (Go harness, op protocol, error-class mapping)',
                   'go-rangers AccountDB/trie/journal (state store under the executors; C02-C04)', 'encoding/json (codec hypotheses CodecId/RawOK)',
                   'crypto/sha256 (only through the Untouched hypotheses; the driver runs its own SHA-256)', 'math/big Float (f64 rounding modelled, sampled)'],
-    assumptions=['chain config dev, heights >= 12: proposals 001-027 active except 025 (status slot, refund height = now+36000, fee 0.001)',
+    assumptions=['fork schedule: every proposal read on the path (T-gen fork_flags_on_path) active — dev height >= 12, mainnet height >= 69329000, robin height >= 84150000 (sessions run under all three); IsSub false; height != Proposal004/010/011/019Block; historical pre-003/-012/-021/-026 rules are not modelled',
+                 'the concurrent-readers stage is evidence (sampled schedules, -race in thorough), not proof',
                  'harness signs with the zero signature: empty miner ids fail recovery (fail:recover)',
                  'account byte strings are not themselves valid miner JSON (TxOK)',
                  'total token supply < 2^53 tokens, so float64 debit rounding and uint64 stake wrap are unreachable (probed: outside_hypothesis notes)',
